@@ -505,3 +505,164 @@ func (g *Graph) containsCall(n ast.Node, keys ...string) *ast.CallExpr {
 	}
 	return nil
 }
+
+// ---- relational guards, independent of how the test is written --------------------------------
+
+// Rel is "X Op Y" over expression keys (exprKey).
+type Rel struct {
+	X  string
+	Op token.Token
+	Y  string
+}
+
+func negOp(op token.Token) token.Token {
+	switch op {
+	case token.EQL:
+		return token.NEQ
+	case token.NEQ:
+		return token.EQL
+	case token.LSS:
+		return token.GEQ
+	case token.GEQ:
+		return token.LSS
+	case token.GTR:
+		return token.LEQ
+	case token.LEQ:
+		return token.GTR
+	}
+	return token.ILLEGAL
+}
+
+func mirrorOp(op token.Token) token.Token {
+	switch op {
+	case token.LSS:
+		return token.GTR
+	case token.GTR:
+		return token.LSS
+	case token.LEQ:
+		return token.GEQ
+	case token.GEQ:
+		return token.LEQ
+	}
+	return op
+}
+
+func opImplies(have, want token.Token) bool {
+	if have == want {
+		return true
+	}
+	switch want {
+	case token.NEQ:
+		return have == token.LSS || have == token.GTR
+	case token.LEQ:
+		return have == token.LSS || have == token.EQL
+	case token.GEQ:
+		return have == token.GTR || have == token.EQL
+	}
+	return false
+}
+
+// condImplies: does cond, taken with the given truth value, imply rel? Conjunctions (true side) and
+// disjunctions (false side) are searched for a conjunct that does.
+func condImplies(cond ast.Expr, truth bool, rel Rel) bool {
+	cond = ast.Unparen(cond)
+	if u, ok := cond.(*ast.UnaryExpr); ok && u.Op == token.NOT {
+		return condImplies(u.X, !truth, rel)
+	}
+	be, ok := cond.(*ast.BinaryExpr)
+	if !ok {
+		return false
+	}
+	switch be.Op {
+	case token.LAND:
+		if truth {
+			return condImplies(be.X, true, rel) || condImplies(be.Y, true, rel)
+		}
+		return false
+	case token.LOR:
+		if !truth {
+			return condImplies(be.X, false, rel) || condImplies(be.Y, false, rel)
+		}
+		return false
+	}
+	op := be.Op
+	if negOp(op) == token.ILLEGAL {
+		return false
+	}
+	if !truth {
+		op = negOp(op)
+	}
+	x, y := exprKey(be.X), exprKey(be.Y)
+	if x == rel.X && y == rel.Y {
+		return opImplies(op, rel.Op)
+	}
+	if x == rel.Y && y == rel.X {
+		return opImplies(mirrorOp(op), rel.Op)
+	}
+	return false
+}
+
+// HoldsAt: every path to loc passes an edge on which rel is implied by the branch condition, and that
+// edge's target dominates loc (the relation's operands are assumed unchanged in between: callers use it
+// for cursor/length style guards inside small functions).
+func (g *Graph) HoldsAt(loc Loc, rel Rel) bool {
+	for _, b := range g.c.Blocks {
+		if !g.Reachable(b) || len(b.Succs) != 2 {
+			continue
+		}
+		for si := 0; si < 2; si++ {
+			info, ok := g.EdgeInfo(b, si)
+			if !ok {
+				continue
+			}
+			if info.Case {
+				// tagged switch: this edge means tag == case (true side) or tag != case (false side)
+				cc, _ := b.Succs[0].Stmt.(*ast.CaseClause)
+				sw := g.switchOf(cc)
+				if sw == nil || sw.Tag == nil {
+					continue
+				}
+				op := token.EQL
+				if !info.Val {
+					op = token.NEQ
+				}
+				t, cse := exprKey(sw.Tag), exprKey(info.Cond)
+				if !((t == rel.X && cse == rel.Y) || (t == rel.Y && cse == rel.X)) || !opImplies(op, rel.Op) {
+					continue
+				}
+			} else if !condImplies(info.Cond, info.Val, rel) {
+				continue
+			}
+			s := b.Succs[si]
+			if g.BlockDominates(s, loc.B) && onlyPred(g, s, b) {
+				return true
+			}
+			// the other branch leaves the function: everything after the test is on this edge
+			if g.BlockDominates(b, loc.B) && !reachesBlockG(g, b.Succs[1-si], loc.B) {
+				return true
+			}
+		}
+	}
+	return false
+}
+
+func reachesBlockG(g *Graph, from, to *cfg.Block) bool {
+	seen := map[*cfg.Block]bool{}
+	var dfs func(b *cfg.Block) bool
+	dfs = func(b *cfg.Block) bool {
+		if b == to {
+			return true
+		}
+		if seen[b] {
+			return false
+		}
+		seen[b] = true
+		for _, s := range b.Succs {
+			if dfs(s) {
+				return true
+			}
+		}
+		return false
+	}
+	return dfs(from)
+}
